@@ -172,7 +172,7 @@ fn ret_event(case: &str, alg: &str, bits: u32, r: Result<Result<Vec<Uint>, ()>, 
             e["kind"] = json!("failure");
         }
         Err(v) => {
-            let v = split_loc(v);
+            let v = split_loc(fix_panic_loc(v));
             e["kind"] = v["outcome"].clone();
             for (k, x) in v.as_object().unwrap() {
                 e[k] = x.clone();
@@ -194,6 +194,9 @@ fn call_one(w: &Value, sink: &mut dyn FnMut(Value)) -> bool {
         yamaquasi::verif::start();
     }
     let t0 = std::time::Instant::now();
+    if let Ok(mut g) = ANY_PANIC.lock() {
+        *g = None;
+    }
     let r = guard_deadline(deadline, move || {
         let prefs = pref.build();
         factor(n, a, &prefs).map_err(|_| ())
@@ -227,7 +230,7 @@ fn small_event(id: &str, alg: &str, n: u64, r: Result<Result<Vec<Uint>, ()>, Val
             e["kind"] = json!("failure");
         }
         Err(v) => {
-            let v = split_loc(v);
+            let v = split_loc(fix_panic_loc(v));
             e["kind"] = v["outcome"].clone();
             for (k, x) in v.as_object().unwrap() {
                 e[k] = x.clone();
@@ -249,6 +252,9 @@ fn sweep(w: &Value, sink: &mut dyn FnMut(Value)) -> bool {
         _ => (lo..hi).collect(),
     };
     for n in ns {
+        if let Ok(mut g) = ANY_PANIC.lock() {
+            *g = None;
+        }
         let r = guard_deadline(deadline, move || {
             let prefs = Pref::default().build();
             factor(Uint::from(n), a, &prefs).map_err(|_| ())
@@ -263,8 +269,62 @@ fn sweep(w: &Value, sink: &mut dyn FnMut(Value)) -> bool {
     false
 }
 
+/// last panic seen in any thread (a panic inside a rayon worker is re-raised in the calling thread without
+/// running the hook again, so the thread-local record of trace.rs is empty there)
+static ANY_PANIC: std::sync::Mutex<Option<(String, String)>> = std::sync::Mutex::new(None);
+
+fn install_global_panic_record() {
+    let prev = std::panic::take_hook();
+    std::panic::set_hook(Box::new(move |info| {
+        let msg = if let Some(s) = info.payload().downcast_ref::<&str>() {
+            s.to_string()
+        } else if let Some(s) = info.payload().downcast_ref::<String>() {
+            s.clone()
+        } else {
+            "?".to_string()
+        };
+        let loc = info.location().map(|l| format!("{}:{}", l.file(), l.line())).unwrap_or_default();
+        if let Ok(mut g) = ANY_PANIC.lock() {
+            if g.is_none() {
+                *g = Some((msg, loc));
+            }
+        }
+        prev(info);
+    }));
+}
+
+/// fills an empty panic location from the global record, and shortens paths of dependency crates
+fn fix_panic_loc(mut v: Value) -> Value {
+    let rec = ANY_PANIC.lock().ok().and_then(|mut g| g.take());
+    if v["outcome"] == "panic" {
+        if v["loc"].as_str().unwrap_or("").is_empty() {
+            if let Some((mut msg, loc)) = rec {
+                msg.truncate(200);
+                let loc = match loc.find("src/") {
+                    Some(i) => loc[i..].to_string(),
+                    None => loc,
+                };
+                v["msg"] = json!(msg);
+                v["loc"] = json!(loc);
+                v["worker_thread"] = json!(true);
+            }
+        }
+        // ".../registry/src/<hash>/bnum-0.8.0/src/x.rs:1" -> "dep:bnum-0.8.0/src/x.rs:1"
+        let loc = v["loc"].as_str().unwrap_or("").to_string();
+        if let Some(i) = loc.rfind("/src/") {
+            if i > 0 {
+                let head = &loc[..i];
+                let krate = head.rsplit('/').next().unwrap_or("");
+                v["loc"] = json!(format!("dep:{}{}", krate, &loc[i..]));
+            }
+        }
+    }
+    v
+}
+
 /// `ymqv cNN --child 1 --cases F --start K --out G`
 pub fn run_child(args: &Args) -> i32 {
+    install_global_panic_record();
     let works = read_ndjson(arg_str(args, "cases", ""));
     let start = arg_u64(args, "start", 0) as usize;
     let path = arg_str(args, "out", "child.ndjson").to_string();
@@ -699,7 +759,9 @@ fn make_limit(rng: &mut StdRng, cache: &mut BigCache, shape: &str, bits: u32) ->
             }
         },
         "over_qP" => loop {
-            let n = (rand_bits(rng, bits - 40) | Uint::ONE) * Uint::from(smooth_prime(rng, 30));
+            let q = smooth_prime(rng, 30);
+            let qb = 64 - q.leading_zeros();
+            let n = (rand_bits(rng, bits - qb + 1) | Uint::ONE) * Uint::from(q); // bits or bits + 1 <= 1024 bits
             if n.bits() > 512 && SMALLS.iter().all(|&p| !(n % Uint::from(p)).is_zero()) {
                 return n;
             }
